@@ -195,10 +195,15 @@ class Target(object):
 # call forms
 
 HASHABLE = [0, 1, 2, -1, 'a', 'b', '1', 'x', 'd', 'k', 2.5, None, (1,), (1, 2), ('a',), b'a',
-            frozenset([1]), 'args', 'kw', '', 'None', '(1,)', "b'a'", "'a'", '2.5']
+            frozenset([1]), 'args', 'kw', '', 'None', '(1,)', "b'a'", "'a'", '2.5',
+            # text that looks like part of a default repr / a path / markup: a key built from text must not
+            # "normalise" it away
+            'obj at 0x7f3a2c00 end', 'obj at 0x7f3a2c40 end', ' a', 'a ', 'A']
 # values whose str()/repr() is another value of the pool: a key built from text must keep them apart
 TWINS = {1: '1', '1': 1, None: 'None', 'None': None, (1,): '(1,)', '(1,)': (1,), b'a': "b'a'", "b'a'": b'a',
-         'a': "'a'", "'a'": 'a', 2.5: '2.5', '2.5': 2.5}
+         'a': "'a'", "'a'": 'a', 2.5: '2.5', '2.5': 2.5,
+         'obj at 0x7f3a2c00 end': 'obj at 0x7f3a2c40 end', 'obj at 0x7f3a2c40 end': 'obj at 0x7f3a2c00 end',
+         ' a': 'a ', 'a ': ' a', 'A': 'a'}
 UNHASHABLE = [[1], [1, 2], {'a': 1}, ['a']]
 TYPED_PAIRS = [(1, 1.0), (1, True), (0, False), (2, 2.0), (0, 0.0)]
 
